@@ -148,6 +148,9 @@ func main() {
 				if j < len(m) {
 					mo = m[j]
 				}
+				if mo == "skip" {
+					continue // the model has no opinion on this line (oracle-only)
+				}
 				if j >= len(impl) || impl[j] != mo {
 					io := "<no output>"
 					if j < len(impl) {
